@@ -348,6 +348,9 @@ def twin_annotations(rng, sd, ac, st, cs):
             w["chord"] = [[r[0], r[1] / lf] for r in ch] + [["-", lu]]
         else:
             w["chord"] = [ch / lf, lu]
+        for k in ("dx", "dy", "dz", "y_offset"):
+            if k in w.get("connect_to", {}):
+                w["connect_to"][k] = [float(w["connect_to"][k]) / lf, lu]
         for k in ("sweep", "dihedral", "twist"):
             if k in w:
                 if isinstance(w[k], list):
